@@ -878,6 +878,8 @@ Definition subst_operand (locals : list nid) (o : operand) : operand :=
       | O => match locals !! i with Some n => OOuter n | None => OLocal (S d) i end
       | S d' => OLocal d i
       end
+  | OLate h => OLate h
+  | OForeign => OForeign
   end.
 
 (* operands at depth >= 1 inside a nested template refer outwards; shift them by one level
@@ -891,6 +893,8 @@ Fixpoint subst_tinstr (lv : nat) (locals : list nid) (t : tinstr) : tinstr :=
           match locals !! i with Some n => OOuter n | None => o end
         else if bool_decide (S lv < d)%nat then OLocal (pred d) i
         else o
+    | OLate h => o
+    | OForeign => o
     end in
   match t with
   | TConst v => TConst v
@@ -918,6 +922,8 @@ with subst_bindfn (lv : nat) (locals : list nid) (f : bindfn) : bindfn :=
                                  match locals !! i with Some n => OOuter n | None => r end
                                else if bool_decide (S lv < d)%nat then OLocal (pred d) i
                                else r
+                           | OLate h => r
+                           | OForeign => r
                            end) :: go ts'
                       end) ts)
   end.
@@ -927,10 +933,12 @@ Definition resolve (locals : list nid) (o : operand) : M nid :=
   | OOuter n => ret n
   | OLocal O i => match locals !! i with Some n => ret n | None => panic (PModelGap 20) end
   | OLocal (S _) _ => panic (PModelGap 21)
+  | OLate h => s <- get ;; match handles s !! h with Some (Some n) => ret n | _ => panic (PModelGap 22) end
+  | OForeign => panic (PModelGap 23)
   end.
 
 (* run one template: the body of a bind closure.  [lhsv] is the left-hand value. *)
-Definition instantiate (lhsv : val) (body : list tinstr) (r : operand) : M nid :=
+Definition instantiate (lhsv : val) (body : list tinstr) (r : operand) : M (option nid) :=
   let cap := as_int lhsv in
   locals <- foldM (fun locals t =>
       n <- match t with
@@ -952,7 +960,8 @@ Definition instantiate (lhsv : val) (body : list tinstr) (r : operand) : M nid :
            end ;;
       ret (match t with TCutoff _ _ | TExport _ => locals | _ => locals ++ [n] end))
     body [] ;;
-  resolve locals r.
+  (* None: the closure returned a node of another state *)
+  match r with OForeign => ret None | _ => n <- resolve locals r ;; ret (Some n) end.
 
 (* ------------------------------------------------------------ recompute (node.rs:590-779) *)
 Definition unwrap_value (n : nid) (site : Z) : M val :=
@@ -1030,6 +1039,8 @@ Definition recompute_one (fuel : nat) (n : nid) : M (option nid) :=
                       end
               end) ;;
       modify (fun s => s <| cur_scope := old_scope |>) ;;;
+      (* assert!(weak_thin_ptr_eq(rhs.weak_state(), &state.weak_self)) (node.rs:710) *)
+      rhs <- (match rhs with Some r => ret r | None => panic PCrossState end) ;;
       (* the closure's temporaries are gone; only the returned node is still held *)
       collect [ONode n; ONode rhs] ;;;
       upd_bind b (fun bd => bd <| b_rhs := Some rhs |>) ;;;
